@@ -30,6 +30,7 @@ import (
 	"net"
 	"net/http"
 	"net/url"
+	"reflect"
 	"sort"
 	"strings"
 	"sync"
@@ -114,7 +115,7 @@ func drawChunks(t *rapid.T, label string, size int) []int {
 	return c
 }
 
-var plainKinds = []string{"write-msg", "writer", "writer", "writer-fail", "ownbuf", "cipher-writer", "cipher-reader", "readfrom", "control-writer", "mask-helpers", "reject", "shared-send", "send-close", "read-data", "read-msg", "reader", "ping", "ping", "pong", "compiled"}
+var plainKinds = []string{"write-msg", "writer", "writer", "writer-fail", "ownbuf", "cipher-writer", "cipher-reader", "readfrom", "control-writer", "mask-helpers", "reject", "ext-writer", "shared-send", "send-close", "read-data", "read-msg", "reader", "ping", "ping", "pong", "compiled"}
 var flateKinds = []string{"flate-send", "flate-recv", "flate-recv", "flate-bytes", "flate-writer", "flate-reader"}
 
 // drawTemplate draws the shape of a session. light = layer 2 (many sessions per case).
@@ -387,6 +388,8 @@ type session struct {
 	helper wsflate.Helper
 	ext    wsflate.Extension
 	closed bool
+	extW   *wsutil.Writer
+	extRec *tx.Rec
 	cw     *wsutil.CipherWriter
 	cwRec  *tx.Rec
 	cr     *wsutil.CipherReader
@@ -464,6 +467,11 @@ func newSession(id int, tp *template) *session {
 			a, b := o, o
 			a.name, b.name = sp.Kind+"-1", sp.Kind+"-2"
 			s.ops = append(s.ops, a, b)
+		case "ext-writer":
+			o.fam, o.class = "writer", sizeClass(sp.WSize)
+			a, b, c, d := o, o, o, o
+			a.name, b.name, c.name, d.name = "extw-get", "extw-write", "extw-flush", "extw-put"
+			s.ops = append(s.ops, a, b, c, d)
 		case "readfrom":
 			a, b := o, o
 			a.name, b.name = "readfrom-copy", "readfrom-flush"
@@ -1016,6 +1024,80 @@ func (s *session) stepOwnbufReuseFlush(o op) {
 	s.expect(err == nil && ok && bytes.Equal(got, s.ownMsg), "Writer over the session's own buffer: the wire does not carry the %d bytes written before other sessions ran", len(s.ownMsg))
 	s.ownW = nil
 	s.keepPattern(1003+o.idx*16, fmt.Sprintf("the %d-byte buffer given to NewWriterBuffer (after its second message, refilled by the session)", len(s.ownBuf)))
+}
+
+// --- writers with an extension list all sessions share ---------------------------
+
+// sharedSendExts is an application-wide list of stateless send extensions that
+// every session attaches to its writers with SetExtensions(sharedSendExts...).
+// The list belongs to the application; the library only reads it.
+var sharedSendExts = []wsutil.SendExtension{
+	wsutil.SendExtensionFunc(func(h ws.Header) (ws.Header, error) { h.Rsv |= 0x2; return h, nil }), // RSV2
+	wsutil.SendExtensionFunc(func(h ws.Header) (ws.Header, error) { h.Rsv |= 0x1; return h, nil }), // RSV3
+}
+
+func renderSharedExts() string {
+	var parts []string
+	for _, x := range sharedSendExts {
+		if x == nil {
+			parts = append(parts, "nil")
+		} else {
+			parts = append(parts, fmt.Sprintf("%T@%x", x, reflect.ValueOf(x).Pointer()))
+		}
+	}
+	return fmt.Sprintf("len=%d [%s]", len(sharedSendExts), strings.Join(parts, " "))
+}
+
+func (s *session) stepExtwGet(o op) {
+	wop, _ := s.opcode(o.spec)
+	s.extRec = tx.NewRec()
+	how := "GetWriter"
+	if o.spec.Which%2 == 0 {
+		s.extW = wsutil.GetWriter(s.dst(s.extRec), s.state|ws.StateExtended, wop, o.spec.WSize)
+	} else {
+		how = "NewWriterSize"
+		s.extW = wsutil.NewWriterSize(s.dst(s.extRec), s.state|ws.StateExtended, wop, o.spec.WSize)
+	}
+	s.extW.SetExtensions(sharedSendExts...)
+	s.logf("%s extensions=%d", how, len(sharedSendExts))
+}
+
+func (s *session) stepExtwWrite(o op) {
+	n, err := s.extW.Write(s.payload(o, 0))
+	s.logf("n=%d err=%s", n, renderErr(err))
+}
+
+func (s *session) stepExtwFlush(o op) {
+	_, rop := s.opcode(o.spec)
+	err := s.extW.Flush()
+	fs, rest, _ := ref.ParseFrames(s.extRec.Bytes())
+	ok := len(rest) == 0 && len(fs) > 0
+	var got []byte
+	for i, f := range fs {
+		want := rop
+		if i > 0 {
+			want = ref.OpCont
+		}
+		if f.H.Op != want || f.H.Rsv != 3 || f.H.Fin != (i == len(fs)-1) || f.H.Masked != s.tpl.Client {
+			ok = false
+		}
+		got = append(got, f.Payload...)
+	}
+	// fragment boundaries are not recorded (a recycled Writer may be a few bytes larger)
+	s.logf("err=%s one-message-with-rsv2+3=%t payload=%s", renderErr(err), ok, digest(got))
+	s.expect(err == nil && ok && bytes.Equal(got, s.payload(o, 0)), "Writer with the shared extensions: the wire does not carry one %d-byte message with RSV2+RSV3 on every frame", o.spec.Size)
+}
+
+func (s *session) stepExtwPut(o op) {
+	how := "PutWriter"
+	if o.spec.Which%4 < 2 {
+		wsutil.PutWriter(s.extW)
+	} else {
+		how = "Reset"
+		s.extW.Reset(s.dst(tx.NewRec()), s.state, ws.OpBinary)
+	}
+	s.extW = nil
+	s.logf("%s shared-extensions=%s", how, renderSharedExts())
 }
 
 // --- CipherWriter / CipherReader ---------------------------------------------
@@ -1874,6 +1956,14 @@ func (s *session) step() {
 			s.stepControlWriter2(o)
 		case "mask-helpers":
 			s.stepMaskHelpers(o)
+		case "extw-get":
+			s.stepExtwGet(o)
+		case "extw-write":
+			s.stepExtwWrite(o)
+		case "extw-flush":
+			s.stepExtwFlush(o)
+		case "extw-put":
+			s.stepExtwPut(o)
 		case "reject":
 			s.stepReject(o)
 		case "shared-send":
